@@ -49,6 +49,7 @@ enum Toy {
     StoreFirst, // resize stores the new size before computing the difference
     DropOrig,   // drop releases the original, not the resized size
     SatSub,     // release uses a saturating subtraction
+    Hoist,      // try_allocate checks the limit only before the CAS loop, not on retry
 }
 
 struct ToyPool {
@@ -70,11 +71,13 @@ impl ToyPool {
     fn try_allocate(&self, size: usize) -> Option<ToyRes<'_>> {
         sp("pool.try.load");
         let mut current = self.used.load(Ordering::Relaxed);
+        let mut first = true;
         loop {
             let new_usage = current.checked_add(size)?;
-            if new_usage > self.max {
+            if new_usage > self.max && (first || self.bug != Toy::Hoist) {
                 return None;
             }
+            first = false;
             sp("pool.try.cas");
             if self.bug == Toy::Toctou {
                 self.used.fetch_add(size, Ordering::SeqCst);
@@ -145,6 +148,7 @@ impl AnyPool {
             "toy:storefirst" => Toy::StoreFirst,
             "toy:droporig" => Toy::DropOrig,
             "toy:satsub" => Toy::SatSub,
+            "toy:hoist" => Toy::Hoist,
             other => panic!("unknown --impl {other}"),
         };
         AnyPool::Toy(ToyPool { max, used: AtomicUsize::new(0), bug })
@@ -507,13 +511,14 @@ struct Outcome {
     contract: Option<String>,
     trace: Vec<Value>,
     spurious: u64,
+    post: u64, // releases made after a divergence (continuation)
 }
 
 fn replay_one(imp: &str, case: &Value) -> Outcome {
     let max = case["max"].as_i64().expect("max");
     let nt = case["nt"].as_u64().expect("nt") as usize;
     let steps = parse_steps(case);
-    let mut out = Outcome { status: "ok", at: -1, why: String::new(), contract: None, trace: Vec::new(), spurious: 0 };
+    let mut out = Outcome { status: "ok", at: -1, why: String::new(), contract: None, trace: Vec::new(), spurious: 0, post: 0 };
     let progs = match programs(nt, &steps) {
         Ok(p) => p,
         Err(e) => {
@@ -668,6 +673,68 @@ fn replay_one(imp: &str, case: &Value) -> Outcome {
             let _ = now;
         }
     }
+    // After a divergence the spec can no longer say what comes next, but the property still
+    // can: keep driving the REAL threads, still one sync point at a time (so used() is read
+    // while everybody else is parked), until every program has ended, and evaluate the
+    // property's own predicates on everything observed.  Order: the diverged thread until its
+    // operation ends, then the rest of the behaviour's schedule as far as it applies, then
+    // any parked thread.  A breach found here is a contract breach of the real code under a
+    // real schedule (the prefix of the behaviour + this continuation).
+    if out.status == "diverged" && out.contract.is_none() {
+        let first = out.at.max(0) as usize;
+        let stick = steps.get(first).map(|s| s.t);
+        let mut pref: std::collections::VecDeque<usize> = steps.iter().skip(first + 1).map(|s| s.t).collect();
+        let mut budget = 4000;
+        let mut k = 0;
+        loop {
+            let parked = |t: usize| matches!(sched.state(t).0, TState::Parked(_));
+            let mut pick = stick.filter(|&d| parked(d) && sched.state(d).1 > 1);
+            while pick.is_none() {
+                match pref.pop_front() {
+                    Some(t) if parked(t) => pick = Some(t),
+                    Some(_) => {}
+                    None => break,
+                }
+            }
+            let t = match pick.or_else(|| (0..nt).find(|&t| parked(t))) {
+                Some(t) => t,
+                None => break, // every thread has finished its program
+            };
+            budget -= 1;
+            if budget == 0 {
+                out.status = "error";
+                out.why = "continuation after a divergence did not terminate".into();
+                break;
+            }
+            let (at, reports, _now) = match sched.step(t) {
+                Ok(x) => x,
+                Err(e) => {
+                    out.status = "error";
+                    out.why = e;
+                    break;
+                }
+            };
+            k += 1;
+            let u = abs_(pool.used());
+            let mut grant = false;
+            for r in &reports {
+                live[t] = r.sizes.iter().map(|&v| abs_(v)).collect();
+                if r.some == Some(true) {
+                    grant = true;
+                }
+            }
+            let idle = idle_now(&sched);
+            out.trace.push(obs_rec(u, &live, grant, idle));
+            if let Some(c) = contract(u, &live, max, grant, idle) {
+                out.contract = Some(format!(
+                    "continuing the real threads after the divergence at step {}, {} more release(s), thread {} released from {}: {}",
+                    first + 1, k, t + 1, at, c
+                ));
+                break;
+            }
+        }
+        out.post = k;
+    }
     // teardown: everything left runs free and is dropped; the pool must return to zero
     sched.teardown();
     let mut joined_ok = true;
@@ -679,15 +746,19 @@ fn replay_one(imp: &str, case: &Value) -> Outcome {
     let u = abs_(pool.used());
     let empty: Vec<Vec<i64>> = vec![Vec::new(); nt];
     out.trace.push(obs_rec(u, &empty, false, true));
-    if out.status == "ok" {
+    if out.status == "ok" || (out.status == "diverged" && out.contract.is_none()) {
         if !joined_ok {
             out.status = "error";
             out.why = "worker thread panicked outside an operation".into();
         } else if let Some(c) = contract(u, &empty, max, false, true) {
+            if out.status == "ok" {
+                out.at = steps.len() as i64;
+            }
             out.status = "diverged";
-            out.at = steps.len() as i64;
             out.contract = Some(format!("after all threads ended and dropped their reservations: {c}"));
-            out.why = out.contract.clone().unwrap();
+            if out.why.is_empty() {
+                out.why = out.contract.clone().unwrap();
+            }
         }
     }
     out
@@ -739,6 +810,7 @@ pub fn replay(a: &[String]) -> i32 {
                 if o.status != "ok" {
                     v["at"] = json!(o.at);
                     v["why"] = json!(o.why);
+                    v["continued"] = json!(o.post);
                 }
                 if let Some(c) = &o.contract {
                     v["contract"] = json!(c);
